@@ -432,6 +432,7 @@ func runR_C16(c *Ctx) {
 	sweepHealth(c, ps...)
 	rR1(c, ps...)
 	rR2(c, ps...)
+	rConstIndex(c, ps...)
 	counts := map[string]int{}
 	for _, p := range ps {
 		for _, rs := range c.acceptedResids(p) {
